@@ -18,7 +18,7 @@ ToCfg(r) == Cfg(r.type, r.dur, r.thin)
 
 TInit ==
   /\ BatchInit
-  /\ K = Hdr.K /\ J = Hdr.J /\ NeedsHist = SeqToSet(Hdr.needs)
+  /\ K = Hdr.K /\ J = Hdr.J /\ NeedsHist = SeqToSet(Hdr.needs) /\ NQ = Hdr.nq
   /\ EInit
   /\ usedKeys = {}
 
@@ -137,6 +137,13 @@ TResults ==
        /\ Chk("transition_infos_for_every_transition", r.ninfo = nInfo[e])
        /\ Chk("kernel_states_for_every_transition",
               r.nks = -1 \/ r.nks = (IF cfgs[e].type = INITIAL THEN 1 ELSE nInfo[e]))
+  /\ \A e \in 1..Len(quants) :
+       Chk("generated_quantities_once_per_stored_iteration_from_post_transition_state",
+           /\ Len(Ev.quants[e]) = Len(quants[e])
+           /\ \A i \in 1..Len(quants[e]) : \A g \in 1..NQ :
+                /\ Ev.quants[e][i][g].seen = [k \in Kernels |-> quants[e][i].seen[k]]
+                /\ Ev.quants[e][i][g].tie = quants[e][i].tie
+                /\ Ev.quants[e][i][g].time = quants[e][i].time)
   /\ LET pc_ == PostChain(1) IN
      Chk("posterior_accessor_returns_exactly_posterior_epochs",
          IF Len(pc_) = 0 THEN (Ev.posterior.none \/ Len(Ev.posterior.tags) = 0)
@@ -147,7 +154,7 @@ TResults ==
   /\ Chk("keys_distinct_across_chains_and_calls",
          Cardinality(SeqToSet(Ev.allkeys)) = Len(Ev.allkeys))
   /\ Chk("design_invariants",
-         LifecycleOK /\ EndWarmupAtMostOnce /\ StoredOK /\ OrderRespected /\ TuneHistoryOK)
+         LifecycleOK /\ EndWarmupAtMostOnce /\ StoredOK /\ QuantsOK /\ OrderRespected /\ TuneHistoryOK)
   /\ UNCHANGED <<mvars, evars, params, usedKeys>> /\ Step
 
 TNext == TSilent \/ TAppend \/ TSampleNext \/ TSampleAll \/ TInitState \/ TCall \/ TResults
